@@ -386,7 +386,7 @@ def main():
             row = {"harness": h["full"], "kind": h["kind"], "tier": h["tier"], "clause": h["text"],
                    "verdict": verdict, "edge": bool(h["edge"])}
             if r:
-                st = r["stats"] or {}
+                st = {k: (v if v is not None else 0) for k, v in (r["stats"] or {}).items()}
                 row.update({"time_s": round(r["duration_ms"] / 1000.0, 2),
                             "checks": len(r["checks"]),
                             "vccs": st.get("vccs_generated", 0), "vccs_remaining": st.get("vccs_remaining", 0),
